@@ -357,6 +357,18 @@ pub fn dispatch(m: &mut Machine, name: &str, args: &[&str]) -> Option<R> {
                 Ok("-".into())
             })
         })(),
+        "dinput_rep" => (|| {
+            need(args, 3)?;
+            let s = arg_slot(args[0])?;
+            let d = arg_bytes(args[1])?;
+            let n = arg_usize(args[2])?;
+            with_digest(m, s, |h| {
+                for _ in 0..n {
+                    h.input(&d);
+                }
+                Ok("-".into())
+            })
+        })(),
         // dinput_str <slot> <bytes that are valid UTF-8>: Digest::input_str
         "dinput_str" => (|| {
             need(args, 2)?;
